@@ -78,6 +78,7 @@ impl UpdateTrivia for BinOp {
     open spec fn same_sem_u(&self, r: &Self) -> bool { binop_id(*r) == binop_id(*self) }
     open spec fn trivia_ok(&self, l: FormatTriviaType, t: FormatTriviaType, r: &Self) -> bool {
         (ftt_new_line(l) ==> binop_nl(*r)) && (t is Replace && no_line_comment(t->Replace_0@) ==> !binop_open(*r))
+        && (l is Replace ==> binop_lead_trivia(*r) == l->Replace_0@) && (t is Replace ==> binop_trail_trivia(*r) == t->Replace_0@)
     }
     #[verifier::external_body] fn update_trivia(&self, leading_trivia: FormatTriviaType, trailing_trivia: FormatTriviaType) -> (r: Self) { unimplemented!() }
 }
@@ -197,7 +198,7 @@ impl GetLeadingTrivia for Expression {
     open spec fn leads_with_comment(&self) -> bool { elc(*self) }
     #[verifier::external_body] fn leading_trivia(&self) -> Vec<Token> { unimplemented!() }
     #[verifier::external_body] fn has_leading_comments(&self, search: CommentSearch) -> (r: bool) { unimplemented!() }
-    #[verifier::external_body] fn leading_comments(&self) -> Vec<Token> { unimplemented!() }
+    #[verifier::external_body] fn leading_comments(&self) -> (r: Vec<Token>) ensures r@ == expr_lead_comments(*self) { unimplemented!() }
 }
 impl GetTrailingTrivia for Expression {
     open spec fn ends_open(&self) -> bool { eopen(*self) }
@@ -209,13 +210,13 @@ impl GetLeadingTrivia for BinOp {
     open spec fn leads_with_comment(&self) -> bool { other_lc(*self) }
     #[verifier::external_body] fn leading_trivia(&self) -> Vec<Token> { unimplemented!() }
     #[verifier::external_body] fn has_leading_comments(&self, search: CommentSearch) -> (r: bool) { unimplemented!() }
-    #[verifier::external_body] fn leading_comments(&self) -> Vec<Token> { unimplemented!() }
+    #[verifier::external_body] fn leading_comments(&self) -> (r: Vec<Token>) ensures r@ == binop_lead_comments(*self) { unimplemented!() }
 }
 impl GetTrailingTrivia for BinOp {
     open spec fn ends_open(&self) -> bool { binop_open(*self) }
     #[verifier::external_body] fn trailing_trivia(&self) -> Vec<Token> { unimplemented!() }
     #[verifier::external_body] fn has_trailing_comments(&self, search: CommentSearch) -> (r: bool) { unimplemented!() }
-    #[verifier::external_body] fn trailing_comments(&self) -> Vec<Token> { unimplemented!() }
+    #[verifier::external_body] fn trailing_comments(&self) -> (r: Vec<Token>) ensures r@ == binop_trail_comments(*self) { unimplemented!() }
 }
 impl GetLeadingTrivia for TokenReference {
     open spec fn leads_with_comment(&self) -> bool { tok_lc(*self) }
